@@ -418,6 +418,11 @@ func cmdCheck(args []string) int {
 			continue
 		case o.Finding != "":
 			kf := openFinding[o.Finding]
+			if kf == nil && otherPropFinding(known, o.Finding, cfg.ID) {
+				// the function is shared with another property, which owns (and reports) this finding
+				r.Out = "other-property-finding"
+				continue
+			}
 			if kf == nil {
 				fmt.Fprintf(os.Stderr, "ENGINE-FAILURE: contract names finding %s which is not an open entry of known_findings.json\n", o.Finding)
 				return 2
@@ -713,6 +718,16 @@ func firstLine(s string) string {
 }
 
 func round3(f float64) float64 { return float64(int(f*1000+0.5)) / 1000 }
+
+// otherPropFinding: id is an open known finding recorded for a different property.
+func otherPropFinding(known []KnownFinding, id, prop string) bool {
+	for i := range known {
+		if known[i].ID == id && known[i].Status == "open" && known[i].Property != prop {
+			return true
+		}
+	}
+	return false
+}
 
 func selected(name string, pf PropFunc) bool {
 	inc := len(pf.Include) == 0
